@@ -44,6 +44,9 @@ STAGE_AFTER = {  # stage method -> the columns that must already be on disk when
 }
 
 
+KF_NF = "staged:non-finite-header-skipped"
+
+
 def child(spec, timeout=600):
     env = dict(os.environ)
     try:
@@ -131,7 +134,12 @@ def reference(ctx, si, payload):
             ctx.violation("reference", f"{label}: after boundary {k} of {K} the output file is not a readable FITS table ({type(e).__name__}: {str(e)[:120]})", dict(wit0, boundary=k))
             continue
         want_meta = {m.upper()[9:] if m.upper().startswith("HIERARCH ") else m.upper() for m in w["meta_keys"]}
-        if cols != w["colnames"] or not want_meta <= set(meta) or (set(meta) - want_meta):
+        nonfin = {m.upper()[9:] if m.upper().startswith("HIERARCH ") else m.upper() for m in w.get("meta_nonfinite", [])}
+        missing = want_meta - set(meta)
+        if cols == w["colnames"] and missing and missing <= nonfin and not (set(meta) - want_meta):
+            # the FITS writer skips a card whose value is NaN / inf (with a warning): open finding
+            ctx.violation(KF_NF, f"{label}: file at boundary {k} lacks the keyword(s) {sorted(missing)} of a completed stage: their values are not finite and astropy writes no card for them", dict(wit0, boundary=k, keywords=sorted(missing)))
+        elif cols != w["colnames"] or not want_meta <= set(meta) or (set(meta) - want_meta):
             ctx.violation("reference", f"{label}: file at boundary {k} has columns {cols} / {len(meta)} keywords; the table held columns {w['colnames']} / {len(want_meta)} keywords at that write (unexpected keywords: {sorted(set(meta) - want_meta)[:3]}, missing: {sorted(want_meta - set(meta))[:3]})", dict(wit0, boundary=k))
         if cols[: len(prev_cols)] != prev_cols:
             ctx.violation("reference", f"{label}: columns at boundary {k} ({cols}) do not extend those at boundary {k-1} ({prev_cols})", dict(wit0, boundary=k))
@@ -147,7 +155,10 @@ def reference(ctx, si, payload):
     # the file left by a completed run holds everything the returned table holds
     if "final_colnames" in r:
         fm = {m.upper()[9:] if m.upper().startswith("HIERARCH ") else m.upper() for m in r["final_meta_keys"]}
-        if final[0] != r["final_colnames"] or not fm <= set(final[2]):
+        fnf = {m.upper()[9:] if m.upper().startswith("HIERARCH ") else m.upper() for m in r.get("final_meta_nonfinite", [])}
+        if final[0] == r["final_colnames"] and (fm - set(final[2])) and (fm - set(final[2])) <= fnf:
+            pass  # reported above, boundary by boundary, as the open finding
+        elif final[0] != r["final_colnames"] or not fm <= set(final[2]):
             ctx.violation("reference", f"{label}: after the run completed the file lacks part of the returned table (columns {final[0]} vs {r['final_colnames']}; missing keywords {sorted(fm - set(final[2]))[:4]})", wit0)
     okf, why = files_equal(os.path.join(snaps, f"{K:03d}.fits"), out)
     if not okf:
@@ -296,7 +307,9 @@ def run(ctx):
                 # staged writing when no trajectory survives: the geometry stage still completes
                 ({"mode": "Target", "n": 300, "never_occulted": True}, "empty.fits"), ({"mode": "Diffuse", "n": 0}, "empty0.fits"),
                 # staged writing together with every diagnostic plot (`run -w --plotall`): the plots are observers
-                ({"mode": "Diffuse", "n": 40, "plots": True}, "plots.fits"), ({"mode": "Target", "n": 1200, "plots": True}, "plots_t.fits")]
+                ({"mode": "Diffuse", "n": 40, "plots": True}, "plots.fits"), ({"mode": "Target", "n": 1200, "plots": True}, "plots_t.fits"),
+                # exactly one surviving trajectory (NaN uncertainty keywords) and a non-finite configuration value (default mono cloud)
+                ({"mode": "Diffuse", "n": 1, "seed": 1}, "one.fits"), ({"mode": "Diffuse", "n": 20, "cloud": "mono_default"}, "inf.fits")]
     if T:
         configs += [
             ({"mode": "Diffuse", "n": 40, "radio": False}, "results.out"),
@@ -317,7 +330,7 @@ def run(ctx):
         for i, (c, o) in enumerate(ref_only):
             root = os.path.join(top, f"refonly{i}")
             os.makedirs(root)
-            extra.append({"kind": "ref", "config": c, "seed": int(ctx.seed * 1000 + 170 + i), "outname": o, "root": root})
+            extra.append({"kind": "ref", "config": {k_: v_ for k_, v_ in c.items() if k_ != "seed"}, "seed": int(c.get("seed", ctx.seed * 1000 + 170 + i)), "outname": o, "root": root})
         P1 = refs + extra + [{"kind": "disabled", "cases": [({"mode": "Diffuse", "n": 40}, 3), ({"mode": "Diffuse", "n": 0}, 4), ({"mode": "Target", "n": 400, "never_occulted": True}, 5), ({"mode": "Target", "n": 900}, 6), ({"mode": "Diffuse", "n": 1, "alt": 33.0}, 9)]}]
         core.run_shards(ctx, "nssmon.checks.c17", "entry", P1, workers=min(16, len(P1)), timeout=ctx.pick(900, 3000))
         allcases = []
